@@ -169,10 +169,62 @@ fn verdict_of(exec: &str) -> Option<bool> {
 
 /// kind = "prog"
 pub fn prog(case: &J) -> R<J> {
+    let mut out = prog_once(case, None)?;
+    // C16: print the parse tree, parse the printed text, and put the printed text through the same lifecycle
+    if case.get("roundtrip").and_then(|b| b.as_bool()) == Some(true) {
+        let src = out["src"].as_str().unwrap_or("").to_string();
+        let mut extra: Vec<J> = vec![];
+        let parsed = catch_unwind(AssertUnwindSafe(|| {
+            <simfony::parse::Program as simfony::parse::ParseFromStr>::parse_from_str(&src)
+        }));
+        match parsed {
+            Err(p) => extra.push(json!({"at":"roundtrip","what":"parse_panic","msg": panic_message(p)})),
+            Ok(Err(_)) => {} // not parseable: nothing to print
+            Ok(Ok(tree)) => {
+                let printed = tree.to_string();
+                match catch_unwind(AssertUnwindSafe(|| {
+                    <simfony::parse::Program as simfony::parse::ParseFromStr>::parse_from_str(&printed)
+                })) {
+                    Ok(Ok(t2)) if t2 == tree => {}
+                    Ok(Ok(_)) => extra.push(json!({"at":"roundtrip","what":"tree_differs","msg": "parse(print(tree)) is another tree", "printed": printed})),
+                    Ok(Err(e)) => extra.push(json!({"at":"roundtrip","what":"printed_does_not_parse","msg": e.to_string(), "printed": printed})),
+                    Err(p) => extra.push(json!({"at":"roundtrip","what":"parse_panic","msg": panic_message(p), "printed": printed})),
+                }
+                let second = prog_once(case, Some(printed.clone()))?;
+                if second["new"] != out["new"] {
+                    extra.push(json!({"at":"roundtrip","what":"acceptance_differs",
+                        "msg": format!("original: {}, printed: {} ({})", out["new"], second["new"], second["new_msg"].as_str().unwrap_or("")), "printed": printed}));
+                }
+                // differences of the printed program that the original does not show
+                let orig: Vec<String> = out["issues"].as_array().map(|a| a.iter().map(|i| format!("{}:{}:{}:{}", i["at"], i["what"], i["point"], i["dbg"])).collect()).unwrap_or_default();
+                if let Some(list) = second["issues"].as_array() {
+                    for i in list {
+                        let key = format!("{}:{}:{}:{}", i["at"], i["what"], i["point"], i["dbg"]);
+                        if !orig.contains(&key) {
+                            extra.push(json!({"at":"roundtrip","what": format!("{}/{}", i["at"].as_str().unwrap_or(""), i["what"].as_str().unwrap_or("")),
+                                "msg": i["msg"], "printed": printed}));
+                        }
+                    }
+                }
+                out["runs"] = json!(out["runs"].as_u64().unwrap_or(0) + second["runs"].as_u64().unwrap_or(0));
+            }
+        }
+        if !extra.is_empty() {
+            let mut all = out["issues"].as_array().cloned().unwrap_or_default();
+            all.extend(extra);
+            out["issues"] = json!(all);
+            out["ok"] = json!(false);
+        }
+    }
+    Ok(out)
+}
+
+fn prog_once(case: &J, src_override: Option<String>) -> R<J> {
     let sep = case.get("sep").and_then(|s| s.as_str()).unwrap_or(" ");
-    let src = match case.get("src").and_then(|s| s.as_str()) {
-        Some(s) => s.to_string(),
-        None => join_tokens(&case["tokens"], sep)?,
+    let src = match (src_override, case.get("src").and_then(|s| s.as_str())) {
+        (Some(s), _) => s,
+        (None, Some(s)) => s.to_string(),
+        (None, None) => join_tokens(&case["tokens"], sep)?,
     };
     let accept = case["accept"].as_bool();
     let mut issues: Vec<J> = vec![];
@@ -422,7 +474,7 @@ pub fn prog(case: &J) -> R<J> {
     if let Some(alt) = case.get("alt").and_then(|a| a.as_array()) {
         if !alt.is_empty() {
             let alt_src = join_tokens(&case["alt"], sep)?;
-            match catch_unwind(AssertUnwindSafe(|| CompiledProgram::new(alt_src.as_str(), Arguments::default(), false))) {
+            match catch_unwind(AssertUnwindSafe(|| CompiledProgram::new(alt_src.as_str(), args.clone(), false))) {
                 Ok(Ok(compiled)) => {
                     let cmr = compiled.commit().cmr();
                     let env = env_from_json(&json!({}));
